@@ -46,6 +46,19 @@ PROPS = {
                    'names), labelled bounded, until the C front end covers them.',
         level_note='str comparison enters only as a strict total order (axioms); __name__/__module__ are str; C twin bounded.',
     ),
+    'C04': dict(
+        title='Adapter lookup returns the most specific applicable registration',
+        contracts=['C04_lookup'], falsifier='C04', modes=['py', 'c'], level='proof',
+        only={'C04_lookup': ['adapter.py:_lookup', 'adapter.py:AdapterLookupBase._uncached_lookup']},
+        level_text='_lookup (the nested first-match search, recursion used through its own contract) and '
+                   'AdapterLookupBase._uncached_lookup (walk of the registry resolution order) are verified from their real '
+                   'bodies against the recursive "first applicable, position by position, most general provided first" '
+                   'specification for all registry contents, arities and hierarchies. The C twin of _lookup, the extendor '
+                   'ordering (add_extendor) and the cache wrapper are compared with a brute-force ranking bounded (random '
+                   'worlds, both implementations), labelled bounded.',
+        level_note='Assumes the representation invariant of registries (tree of dicts per order, extendor lists) as '
+                   'precondition (established by the mutators, C09), ghost predicate in_tree, _subscribe by assumed contract.',
+    ),
 }
 
 # properties not claimed (kept current; see DESIGN.md section 6)
